@@ -79,9 +79,9 @@ theorem corr_any (m : Nat) {b : Nat} {rs : List (Route α)} {gs : List (Reg α)}
   | skip hm _ ih =>
     simp only [List.any_cons, contains_eq_false_of_not_mem hm, Bool.false_and, Bool.false_or]
     exact ih
-  | one h1 h2 h3 _ _ _ _ _ _ ih =>
+  | one h1 h2 h3 _ _ _ _ _ _ _ ih =>
     simp only [List.any_cons, contains_eq_true_of_mem h1, Bool.true_and, h2, h3, ih]
-  | merged h1 h2 h3 _ h5 h6 _ _ _ _ _ _ _ ih =>
+  | merged h1 h2 h3 _ h5 h6 _ _ _ _ _ _ _ _ ih =>
     simp only [List.any_cons, contains_eq_true_of_mem h1, Bool.true_and, h2, h3] at ih ⊢
     rw [← ih, h5, h6]
     cases f _ _ <;> simp
